@@ -364,6 +364,22 @@ func run3(c *fw.Ctx) {
 	}
 }
 
+// Corpus yields the source text of every program of the quick tier (used as a
+// corpus by other checks: C04, C11, C08).
+func Corpus(maxCore int, yield func(src string)) {
+	g := newG()
+	pfx := prefixes(false)
+	for _, ctx := range contexts {
+		for n := 1; n <= maxCore; n++ {
+			for _, core := range g.stmts(n, ctx.inLoop) {
+				for _, p := range pfx {
+					yield(gen.Source(program(ctx, p, core)))
+				}
+			}
+		}
+	}
+}
+
 func one(c *fw.Ctx, body []gen.Stmt) {
 	src := gen.Source(body)
 	if c.Skip(src) {
